@@ -28,3 +28,7 @@ func TestCrash(t *testing.T) {
 func TestConcurrent(t *testing.T) {
 	hk.RunSub(t, hk.Sub[WPlan]{Name: "s4/concurrent-writers", Quick: 400, Thorough: 1500, Gen: GenW, Run: RunW})
 }
+
+func TestCancelled(t *testing.T) {
+	hk.RunSub(t, hk.Sub[XPlan]{Name: "s4/cancelled-writes", Quick: 150, Thorough: 1500, Gen: GenX, Run: RunX})
+}
